@@ -53,7 +53,7 @@ def part(run, tier, seed, mode, n_gen=None):
     N = 4
     items = [{"id": "abs-" + name, "text": text, "goals": goals, "settings": ({} if name == "multi_assigned_default_types" else {"disable_type_inference": True})}
              for name, text, goals in FIXED]
-    for it in C.generated(seed + 31, n_gen if n_gen is not None else (16 if quick else 200), maxdeg=2, ngoals=3):
+    for it in C.generated(seed + 31, n_gen if n_gen is not None else (8 if quick else 120), maxdeg=2, ngoals=3):
         items.append({"id": "abs-" + it["id"], "text": it["text"],
                       "goals": it["goals"], "settings": {"disable_type_inference": True}, "generated": True})
     jobs = [{"kind": "analyze", "id": it["id"], "text": it["text"], "goals": it["goals"], "points": "auto:1", "N": N,
